@@ -1088,6 +1088,37 @@ Proof.
       * intros H d' H'. apply H. right. exact H'.
 Qed.
 
+(** ** Caching loaders: a cache hit re-binds the template globals and keeps the matter layer *)
+
+(** Whatever the cached template's previous global_data was: after the
+    re-binding of a cache hit, the mapping handed to the render context
+    resolves a name to the render argument, else the loader matter the template
+    was loaded with, else the NEW per-call template global, else the
+    environment global; no existing mapping is written. *)
+Theorem cache_hit_keeps_matter_layer (s : store) eg tg2 gd_old ov args s' g :
+  eg < length s -> tg2 < length s -> ov < length s -> args < length s ->
+  NoDup (keys (read s tg2)) ->
+  cache_hit_globals s eg tg2 gd_old ov args = (s', g) ->
+  (forall k, mget s' g k =
+     first_some [assoc k (read s args); assoc k (read s ov);
+                 assoc k (read s tg2); assoc k (read s eg)])
+  /\ (forall a, a < length s -> read s' a = read s a).
+Proof.
+  intros He Ht Ho Ha ND. unfold cache_hit_globals, cache_hit_rebind.
+  rewrite env_make_globals_eq. unfold template_make_globals, alloc.
+  intro H. inversion H; subst. clear H. split.
+  - intro k. rewrite mget_chain. cbn [map mget first_some].
+    rewrite read_app_new.
+    rewrite (read_app_lt (s ++ _) _ ov) by len.
+    rewrite (read_app_lt s _ ov) by exact Ho.
+    rewrite (read_app_lt (s ++ _) _ (length s)) by len.
+    rewrite read_app_new. rewrite (read_app_lt s _ args) by exact Ha.
+    rewrite (assoc_merged _ _ k ND).
+    destruct (assoc k (read s args)); auto; destruct (assoc k (read s ov)); auto;
+    destruct (assoc k (read s tg2)); auto; destruct (assoc k (read s eg)); auto.
+  - intros a Hlt. rewrite read_app_lt by len. apply read_app_lt. exact Hlt.
+Qed.
+
 End Proofs.
 
 (** * Which layer wins does not depend on the values *)
